@@ -81,8 +81,17 @@ func genKeyUsage() {
 			return false
 		})
 	}
-	writeGen("KeyUsage", fmt.Sprintf("def keyUsageTable : List (Nat × String) := [%s]\ndef keyUsageIsMap : Bool := %v\ndef ekuTable : List (String × String) := [\n  %s]\n",
-		strings.Join(rows, ", "), isMap, strings.Join(ekus, ",\n  ")))
+	// the SANs come from the extension itself (every kind of GeneralName, in the order encoded), not from the four lists
+	// crypto/x509 keeps: getCertificateInfo calls subjectAltNames and reads none of DNSNames/IPAddresses/URIs/EmailAddresses
+	sansFromExt := false
+	if gi := findFunc(parse("internal/file/der.go"), "getCertificateInfo"); gi != nil {
+		t := nodeText(gi.Body)
+		sansFromExt = strings.Contains(t, "subjectAltNames(") && !strings.Contains(t, ".DNSNames") && !strings.Contains(t, ".IPAddresses") &&
+			!strings.Contains(t, ".URIs") && !strings.Contains(t, ".EmailAddresses")
+	}
+	facts["cert.sansFromExtension"] = sansFromExt
+	writeGen("KeyUsage", fmt.Sprintf("def keyUsageTable : List (Nat × String) := [%s]\ndef keyUsageIsMap : Bool := %v\ndef certSansFromExtension : Bool := %v\ndef ekuTable : List (String × String) := [\n  %s]\n",
+		strings.Join(rows, ", "), isMap, sansFromExt, strings.Join(ekus, ",\n  ")))
 	facts["keyusage.isMap"] = isMap
 	facts["keyusage.count"] = len(rows)
 	facts["eku.count"] = len(ekus)
